@@ -56,17 +56,29 @@ def expect_refuted(ctx, module, cfg, what, **kw):
 
 
 def race_reports(prefix):
-    """Parse the race detector's log files: list of (text, in_goawk)."""
+    """Parse the race detector's log files.  For every report: (text, writers) where writers lists, for each
+    WRITE access of the report, the first frame of its stack that lies in the goawk module, tagged
+    'goawk:<function>' or 'harness:<function>'."""
     out = []
     for path in glob.glob(prefix + '.*'):
         txt = open(path, errors='replace').read()
         for block in txt.split('==================')[1:]:
             if 'DATA RACE' not in block:
                 continue
-            # the two accesses: the first frame under "Write at"/"Read at"/"Previous write at"/"Previous read at"
-            tops = re.findall(r'(?:[Ww]rite|[Rr]ead) at 0x[0-9a-f]+ by [^\n]*\n\s+(\S+)\(\)', block)
-            goawk = [t for t in tops if t.startswith('github.com/benhoyt/goawk/') and '/verifharness/' not in t]
-            out.append((block.strip()[:3000], goawk))
+            writers = []
+            for sec in re.split(r'\n\s*\n', block.replace('WARNING: DATA RACE', '')):
+                head = sec.strip().split('\n', 1)[0]
+                if not re.match(r'(Previous )?[Ww]rite at ', head):
+                    continue
+                frames = re.findall(r'^\s+(\S+)\(\)\s*$', sec, flags=re.M)
+                mod = [f for f in frames if f.startswith('github.com/benhoyt/goawk/')]
+                if not mod:
+                    writers.append('other:' + (frames[0] if frames else '?'))
+                elif '/verifharness/' in mod[0]:
+                    writers.append('harness:' + mod[0])
+                else:
+                    writers.append('goawk:' + re.sub(r'^github.com/benhoyt/goawk/', '', mod[0]))
+            out.append((block.strip()[:3000], writers))
     return out
 
 
@@ -120,7 +132,7 @@ def run(ctx):
     g = ctx.cfg('Gen_Resolver', name='Gen_Resolver_multi3', constants=res(Family='"multi"', NFm=3))
     ctx.tlc('Gen_Resolver', g, capture='cases.ndjson', timeout=900)
     g = ctx.cfg('Gen_Resolver', name='Gen_Resolver_multi6', constants=res(Family='"multi"', NFm=6))
-    ctx.tlc('Gen_Resolver', g, capture='cases.ndjson', simulate=(250 if q else 4000), depth=12, workers=w4, timeout=1500)
+    ctx.tlc('Gen_Resolver', g, capture='cases.ndjson', simulate=(250 if q else 1000), depth=12, workers=w4, timeout=1500)
     g = ctx.cfg('Gen_Resolver', name='Gen_Resolver_usage', constants=res(Family='"usage"', NG=1 if q else 2))
     ctx.tlc('Gen_Resolver', g, capture='cases.ndjson', timeout=1500, heap='8g')
     if not q:
@@ -169,10 +181,12 @@ def run(ctx):
         reps = race_reports(prefix)
         ctx.cov['race_reports'] = len(reps)
         ctx.cov['evaluations'] += 150
-        for text, goawk in reps:
+        for text, writers in reps:
+            goawk = [w for w in writers if w.startswith('goawk:')]
             if not goawk:
-                raise MachineryError('the race detector reported a race whose accesses are in harness code only:\n' + text[:1500])
-            fn = re.sub(r'^github.com/benhoyt/goawk/', '', goawk[0])
-            ctx.add_failure(f'C19/race/{fn}', 'data race inside goawk while interpreters share one Program (race detector)',
-                            case=None, expected='no unsynchronised access to shared memory', observed=text)
+                raise MachineryError('the race detector reported a race whose writing access is not in goawk code '
+                                     f'({writers}); harness defect, not a verdict:\n' + text[:1500])
+            ctx.add_failure(f'C19/race/{goawk[0][6:]}', 'data race: goawk code writes memory shared between interpreters '
+                            'that run over one Program (race detector)', case=None,
+                            expected='no unsynchronised access to shared memory', observed=text)
         ctx.log(f'race detector: {len(reps)} report(s) over 150 recorded traces')
